@@ -53,20 +53,23 @@ def capture(ctx, pki, cases, deadline_ms=4000, name="capture"):
     return good, skipped
 
 
-def flights_of(caps, side, first=None):
-    """MC input: the messages of `side` of every captured case; first: {case: 1-based first message to mutate}"""
+def flights_of(caps, side, first=None, extra=None):
+    """MC input: the messages of `side` of every captured case; first: {case: 1-based first message to mutate};
+    extra: {case: {"recs": bool, "post": int}}"""
     out = []
     for name, (a, b) in caps.items():
         o = "c" if side == "s" else "s"
         inner = a.get("s_inner", []) if side == "s" else []
         inner = (inner + [[]] * len(a[side]))[:len(a[side])]
-        out.append({"case": name, "side": side, "msgs": a[side], "msgs2": b[side], "other": a[o], "from": (first or {}).get(name, 1), "inner": inner})
+        out.append({"case": name, "side": side, "msgs": a[side], "msgs2": b[side], "other": a[o], "from": (first or {}).get(name, 1), "inner": inner,
+                    "recs": bool((extra or {}).get(name, {}).get("recs")), "post": int((extra or {}).get(name, {}).get("post", 0)),
+                    "myrecs": a.get(side + "_recs", [])})
     return out
 
 
 def rec_flights(caps):
     """MC input for C07: the first record a client wrote (a ClientHello record)"""
-    return [{"case": name, "side": "rec", "msgs": [a["rec0"]], "msgs2": [a["rec0"]], "other": [], "from": 1, "inner": [[]]} for name, (a, b) in caps.items()]
+    return [{"case": name, "side": "rec", "msgs": [a["rec0"]], "msgs2": [a["rec0"]], "other": [], "from": 1, "inner": [[]], "recs": False, "post": 0, "myrecs": []} for name, (a, b) in caps.items()]
 
 
 # ---------------------------------------------------------------- TLC: enumeration
@@ -168,6 +171,18 @@ def conn_rows(scn_by_sid, evs, t):
         if e["prime_err"]:
             raise vlib.Machinery("flight harness: session priming failed for %s: %s" % (e["case"], e["prime_err"]))
         s = scn_by_sid[e["sid"]]
+        if s["kind"] == "rec":
+            rows.append({"t": "rec", "sid": e["sid"], "case": s["case"], "side": s["side"], "msg": s["msg"], "op": "record:%d:%d" % (s["rtype"], s["rlen"]),
+                         "cls": "record", "path": "record[%s]" % s["where"], "st": s["st"], "mkind": "record", "where": s["where"], "raw": s["raw"], "hdr": s["hdr"],
+                         "rep_hdr": e["rep_hdr"], "applied": e["applied"], "mut_len": e["mut_len"], "mut_sum": e["mut_sum"],
+                         "client": _side_row(e["client"]), "server": _side_row(e["server"]), "deadline_ms": e["deadline_ms"], "alloc_kb": -1, "_ev": e})
+            continue
+        if s["kind"] == "post":
+            rows.append({"t": "post", "sid": e["sid"], "case": s["case"], "side": s["side"], "msg": -1, "op": "+".join(s["seq"]) or "nothing", "cls": "post",
+                         "path": "post[%s]" % s["tr"], "st": s["st"], "mkind": "post", "tr": s["tr"], "seq": s["seq"], "ready": e["ready"], "sent": e["sent"],
+                         "transport": e["transport"], "calls": [{"call": c["call"], "outcome": c["outcome"], "start_ms": c["start_ms"], "ret_ms": c["ret_ms"]} for c in e["calls"]],
+                         "applied": e["ready"], "deadline_ms": e["deadline_ms"], "alloc_kb": -1, "_ev": e})
+            continue
         rows.append({"t": t, "sid": e["sid"], "case": s["case"], "side": s["side"], "msg": s["msg"], "op": s["op"], "cls": s["cls"],
                      "path": s["path"], "st": s["st"], "mkind": s["mkind"], "mode": s["mode"], "sp": s["sp"],
                      "skey": "%s#%d%s" % (s["case"], s["msg"], "#i" if s.get("inner") else ""), "ckey": "%s#%s#%d" % (s["case"], s["side"], s["msg"]),
@@ -181,7 +196,21 @@ def strip(rows):
     return [{k: v for k, v in r.items() if not k.startswith("_")} for r in rows]
 
 
+def row_op(s):
+    return ("record:%d:%d" % (s["rtype"], s["rlen"])) if s["kind"] == "rec" else (("+".join(s["seq"]) or "nothing") if s["kind"] == "post" else s["op"])
+
+
+def row_path(s):
+    return ("record[%s]" % s["where"]) if s["kind"] == "rec" else (("post[%s]" % s["tr"]) if s["kind"] == "post" else s["path"])
+
+
 def harness_scn(s):
+    if s["kind"] == "rec":
+        return {"sid": s["sid"], "case": s["case"], "side": s["side"], "msg": s["msg"], "mode": "live", "sp": [], "kind": "rec",
+                "rec": {"where": s["where"], "index": s["index"], "raw": s["raw"]}}
+    if s["kind"] == "post":
+        return {"sid": s["sid"], "case": s["case"], "side": s["side"], "msg": -1, "mode": "live", "sp": [], "kind": "post",
+                "post": {"seq": s["seq"], "transport": s["tr"]}}
     return {"sid": s["sid"], "case": s["case"], "side": s["side"], "msg": s["msg"], "mode": s["mode"], "sp": s["sp"], "measure": s["measure"],
             "inner": bool(s.get("inner"))}
 
@@ -217,6 +246,11 @@ def run_connection_family(ctx, pid, side, cases, classes=None, inserts=True, dea
             elif isinstance(v, dict):
                 for kk, vv in v.items():
                     total[k][kk] = total[k].get(kk, 0) + vv if isinstance(vv, int) and k.startswith("outcomes_of") else vv
+    if not rp:
+        want = set(classes or ALL_CLASSES) | ({"insert"} if inserts else set())
+        want |= ({"record"} if any(c.get("recs") for c in cases) else set()) | ({"post"} if any(c.get("post") for c in cases) else set())
+        if want - set(total["classes"]) - {"oddlist"}:
+            raise vlib.Machinery("%s: mutation class never exercised: %s" % (pid, sorted(want - set(total["classes"]))))
     total["rule"] = total["rule"].replace("of %d case(s)" % len(cases[:batch]), "of %d case(s)" % len(total["cases"]))
     return total
 
@@ -224,19 +258,21 @@ def run_connection_family(ctx, pid, side, cases, classes=None, inserts=True, dea
 def _connection_batch(ctx, pid, side, cases, classes, inserts, deadline_ms, btag):
     """The whole pipeline for one batch of cases. Returns coverage dict pieces."""
     classes = classes or ALL_CLASSES
+    orig_cases = {c["name"]: c for c in cases}
     first = {c["name"]: c.get("from", 1) for c in cases}
-    cases = [{k: v for k, v in c.items() if k != "from"} for c in cases]
+    extra = {c["name"]: {"recs": c.get("recs", False), "post": c.get("post", 0)} for c in cases}
+    cases = [{k: v for k, v in c.items() if k not in ("from", "recs", "post")} for c in cases]
     sut = "client" if side == "s" else "server"
     pki = mkpki(ctx)
     caps, skipped = capture(ctx, pki, cases)
     if not caps:
         raise vlib.Machinery("%s: no case could be captured: %s" % (pid, skipped))
     cases = [c for c in cases if c["name"] in caps]
-    scn, pos = enumerate_scenarios(ctx, flights_of(caps, side, first), [], [], classes, inserts, [], pid.lower() + btag)
+    scn, pos = enumerate_scenarios(ctx, flights_of(caps, side, first, extra), [], [], classes, inserts, [], pid.lower() + btag)
     rp = getattr(ctx, "replay", None)
     if rp:
         want = rp["replay"]
-        scn = [s for s in scn if s["kind"] == "base" or (s["msg"] == want["scenario"]["msg"] and s["path"] == want["path"] and s["op"] == want["op"])]
+        scn = [s for s in scn if s["kind"] == "base" or (s["msg"] == want["scenario"]["msg"] and row_path(s) == want["path"] and row_op(s) == want["op"])]
         if len(scn) < 2:
             raise vlib.Machinery("replay: TLC did not enumerate the recorded scenario again")
     by_sid = {s["sid"]: s for s in scn}
@@ -251,7 +287,7 @@ def _connection_batch(ctx, pid, side, cases, classes, inserts, deadline_ms, btag
     rows = conn_rows(by_sid, evs, "conn")
     # 2. the declared-length class once more, one at a time, with allocation accounting (baselines first, 3x)
     base = [s for s in scn if s["kind"] == "base"]
-    meas = [s for s in scn if s["measure"] and s["kind"] != "base"]
+    meas = [s for s in scn if s.get("measure") and s["kind"] != "base"]
     aevs = ctx.drv("run", dict(req, scenarios=[harness_scn(s) for s in base * 3 + meas], serial=True, deadline_ms=250),
                    prog=PROG, name=pid + "-alloc", timeout=3000)
     arows = conn_rows(by_sid, aevs, "alloc")
@@ -272,7 +308,7 @@ def _connection_batch(ctx, pid, side, cases, classes, inserts, deadline_ms, btag
 
     # the parallel pass is a screen: rows that were not conclusive under load (message not reached before the
     # deadline, late, hung) are executed again calmly and judged again
-    retry = sorted({r["sid"] for r, w in rej if w in ("late", "hang", "baseline-failed") or (w == "binding" and not full[r["sid"]]["applied"])})
+    retry = sorted({r["sid"] for r, w in rej if w in ("late", "hang", "baseline-failed") or (w == "binding" and not full[r["sid"]]["applied"])})   # (a post row that was not ready is "baseline-failed")
     rejected = [(full[r["sid"]], w) for r, w in rej if r["sid"] not in retry]
     if retry:
         f2, rej2 = calm(retry, "retry")
@@ -318,7 +354,10 @@ def _connection_batch(ctx, pid, side, cases, classes, inserts, deadline_ms, btag
                 raise vlib.Machinery("%s: rejection not reproduced (sid=%d %s %s %s at %s): %s" % (pid, r["sid"], w, r["case"], r["op"], r["path"], r["_ev"][sut]))
     for r, w in findings:
         e = r["_ev"][sut]
-        if w == "panic":
+        if r["t"] == "post":
+            bad = [c for c in r["_ev"]["calls"] if c["outcome"] not in ("ok", "error")] or [{"call": "?", "panic_at": ""}]
+            sig = "%s:post:%s:%s%s" % (w, r["tr"], bad[0]["call"], (":" + bad[0]["panic_at"]) if bad[0].get("panic_at") else "")
+        elif w == "panic":
             sig = "panic:%s:%s" % (e["panic_at"], r["mkind"])
         elif w == "alloc":
             sig = "alloc:%s:%s:%s" % (r["mkind"], r["path"], r["op"])
@@ -328,28 +367,40 @@ def _connection_batch(ctx, pid, side, cases, classes, inserts, deadline_ms, btag
         ctx.finding(sig, "%s %s on hostile input: case %s, %s message #%d (%s) at state %s, node %s, operator %s: %s %s alloc_kb=%s" % (
             sut, w, r["case"], "server" if side == "s" else "client", r["msg"], r["mkind"], r["st"], r["path"], r["op"],
             e["panic"] or e["err"], e["panic_at"], r["alloc_kb"]),
-            {"case": [c for c in cases if c["name"] == r["case"]][0], "scenario": harness_scn(s), "op": r["op"], "path": r["path"], "observed": r["_ev"]})
+            {"case": orig_cases[r["case"]], "scenario": harness_scn(s), "op": r["op"], "path": r["path"], "observed": r["_ev"]})
 
     if rp:
         return {"evaluations": len(rows) + len(arows), "distinct_nontrivial": len(rows), "rule": "replay of one recorded scenario", "cases": [c["name"] for c in cases],
                 "skipped_cases": skipped, "samples": [], "exhaustive": False, "deadline_ms": deadline_ms}
     # 4. binding canary: a good row with one logged field corrupted must be rejected
-    good = [r for r in rows if r["op"] != "none" and r["sid"] not in {x["sid"] for x, w in rejected}]
+    rejsids = {x["sid"] for x, w in rejected}
+    good = [r for r in rows if r["t"] == "conn" and r["op"] != "none" and r["sid"] not in rejsids]
     if not good:
         raise vlib.Machinery("%s: no accepted mutated row to build the binding canary from" % pid)
     g = good[len(good) // 2]
     c1 = dict(strip([g])[0]); c1[sut] = dict(c1[sut], outcome="panic")
     c2 = dict(strip([g])[0]); c2["mut_sum"] = (c2["mut_sum"] + 1) % 1000003
     c3 = dict(strip([g])[0]); c3[sut] = dict(c3[sut], elapsed_ms=c3["deadline_ms"] + 5000)
-    crej, _ = validate(ctx, [c1, c2, c3], skels, rcaps, pid.lower() + "k")
-    ctx.traces -= 3
-    if sorted(w for r, w in crej) != ["binding", "late", "panic"]:
-        raise vlib.Machinery("%s: binding canary not rejected as expected: %r" % (pid, [w for r, w in crej]))
+    canaries, expect = [c1, c2, c3], ["panic", "binding", "late"]
+    for kind, how in (("post", "hang"), ("rec", "binding")):
+        gk = [r for r in rows if r["t"] == kind and r["sid"] not in rejsids]
+        if gk:
+            ck = json.loads(json.dumps(strip([gk[len(gk) // 2]])[0]))
+            if kind == "post":
+                ck["calls"][-1]["outcome"] = "hang"
+            else:
+                ck["mut_sum"] = (ck["mut_sum"] + 1) % 1000003
+            canaries.append(ck); expect.append(how)
     if ameas:
         c4 = dict(strip([ameas[0]])[0]); c4["alloc_kb"] = max(r["alloc_kb"] for r in abase) + 20000
-        if [w for r, w in validate(ctx, [c4], skels, rcaps, pid.lower() + "ka", common=strip(abase))[0]] != ["alloc"]:
-            raise vlib.Machinery("%s: allocation canary not rejected" % pid)
-        ctx.traces -= 1
+        canaries.append(c4); expect.append("alloc")
+    for i, ck in enumerate(canaries):
+        ck["sid"] = -1 - i
+    crej = validate(ctx, canaries, skels, rcaps, pid.lower() + "k", common=strip(abase))[0]
+    ctx.traces -= len(canaries)
+    got = {r["sid"]: w for r, w in crej}
+    if [got.get(-1 - i) for i in range(len(canaries))] != expect:
+        raise vlib.Machinery("%s: binding canaries not rejected as expected: %r vs %r" % (pid, got, expect))
 
     # 5. vacuity: every class and every protocol state must have been executed, both outcomes observed
     outc = {}
@@ -360,9 +411,6 @@ def _connection_batch(ctx, pid, side, cases, classes, inserts, deadline_ms, btag
     if not all(r["applied"] for r in mut_rows):
         raise vlib.Machinery("%s: %d scenario(s) never reached their message" % (pid, sum(1 for r in mut_rows if not r["applied"])))
     seen_cls = {r["cls"] for r in mut_rows}
-    want = set(classes) | ({"insert"} if inserts else set())
-    if want - seen_cls - ({"oddlist"} if side == "s" else set()):
-        raise vlib.Machinery("%s: mutation class never exercised: %s" % (pid, sorted(want - seen_cls)))
     if outc.get("error", 0) == 0 or outc.get("ok", 0) == 0:
         raise vlib.Machinery("%s: vacuous: outcomes %r (mutations are not reaching the %s)" % (pid, outc, sut))
     ok_mut = sum(1 for r in mut_rows if r["_ev"][sut]["outcome"] == "ok")
@@ -370,15 +418,20 @@ def _connection_batch(ctx, pid, side, cases, classes, inserts, deadline_ms, btag
     states = sorted({r["st"] for r in rows})
     kinds = sorted({r["mkind"] for r in mut_rows})
     tuples = {(r["st"], r["mkind"], r["path"], r["op"]) for r in mut_rows}
+    conn_mut = [r for r in mut_rows if r["t"] == "conn"]
     sample = [{k: r[k] for k in ("case", "st", "mkind", "path", "op", "sp")} | {"outcome": r["_ev"][sut]["outcome"], "err": r["_ev"][sut]["err"]}
-              for r in mut_rows[:: max(1, len(mut_rows) // 4)][:4]]
+              for r in conn_mut[:: max(1, len(conn_mut) // 4)][:4]]
+    sample += [{k: r[k] for k in ("case", "st", "path", "op")} | {"calls": [(c["call"], c["outcome"], c["ret_ms"]) for c in r["calls"]]}
+               for r in [x for x in mut_rows if x["t"] == "post"][:: max(1, len(mut_rows))][:1]]
     for s in sample:
-        s["sp"] = [dict(x, ins=x["ins"][:12]) for x in s["sp"]]
+        if "sp" in s:
+            s["sp"] = [dict(x, ins=x["ins"][:12]) for x in s["sp"]]
     return {"evaluations": len(rows) + len(arows), "distinct_nontrivial": len(tuples),
             "rule": "scenarios = TLC-enumerated (receiver state x message kind x grammar node x mutation operator) over the captured flights of %d case(s); "
                     "distinct = different (state, kind, node path, operator) tuples executed on the real %s" % (len(cases), sut),
             "cases": [c["name"] for c in cases], "skipped_cases": skipped, "messages_not_mutated_unstable_layout": unmutable, "protocol_states": states, "message_kinds": kinds,
-            "classes": sorted(seen_cls), "outcomes_of_" + sut: outc, "mutated_but_ok": ok_mut, "waited_until_deadline": waited,
+            "classes": sorted(seen_cls), "raw_record_scenarios": sum(1 for r in mut_rows if r["t"] == "rec"),
+            "post_handshake_scenarios": sum(1 for r in mut_rows if r["t"] == "post"), "outcomes_of_" + sut: outc, "mutated_but_ok": ok_mut, "waited_until_deadline": waited,
             "allocation_runs": len(ameas), "allocation_baseline_kb": {r["case"]: r["alloc_kb"] for r in abase},
             "allocation_max_kb": max([r["alloc_kb"] for r in ameas] or [0]), "deadline_ms": deadline_ms,
             "samples": sample, "exhaustive": False}
